@@ -19,6 +19,8 @@ func runC14(c *Ctx, r *Report) {
 	c.checkLiteralValueSources(r, "C14.R8")
 	r.Rule("C14.R9", "what is saved is the global scope: under Environment.SaveGlobals every read of an environment's store is dominated by the `outer == nil` edge of a test on that very environment (the exit of the walk to the root)")
 	c.checkSaveIsGlobal(r, "C14.R9")
+	r.Rule("C14.R10", "a saved line binds the name it is saved for: under SaveGlobals a line without `name=` (the definition form of a named function) is written only where the key was compared with the function's own name")
+	c.checkNamedFormOnlyForOwnName(r, "C14.R10")
 	r.Rule("C14.R7", "auto-save sees every change: every write or delete on an Environment's store map (other than installing a Reference) is accompanied, on every path through it, by an increment of numSet of the same environment under its depth==0 test")
 	c.checkChangeCounter(r, "C14.R7")
 
